@@ -44,6 +44,9 @@ GAPS = (1, 30, 365, 400)
 GAPS_FEW = (30, 365)
 DATE0 = 39448                      # 2008-01-01
 LONG_LENGTHS = tuple(range(5, 31))
+# (first date, gaps) of three-date schedules given as plain day numbers
+DAY_NUMBER_SCHEDULES = ((30, (30, 30)), (1, (59, 1)), (59, (2, 305)),
+                        (60, (1, 365)))
 COEFFS = ((1, 1), (2, -3), (0.5, 0.25))
 
 RULE = ('NPV: every vector of length <=4 (thorough 5) over {-100,-10,0,10,50,'
@@ -131,8 +134,8 @@ def A(rows):
     return lib.Array(rows)
 
 
-def dates_of(gaps):
-    out = [DATE0]
+def dates_of(gaps, date0=None):
+    out = [DATE0 if date0 is None else date0]
     for g in gaps:
         out.append(out[-1] + g)
     return out
@@ -175,6 +178,15 @@ def exec_npv(rate, flows, route):
     if route == 'f-range':
         return lib.eval_formula('=NPV(%s,A1:A%d)' % (repr(rate), len(flows)),
                                 cells_col(flows))
+    if route == 'f-block':
+        # the flows row by row in a block of two rows (a range is read the
+        # way it is written: along the rows)
+        assert len(flows) % 2 == 0
+        w = len(flows) // 2
+        cells = {'Sheet1!%s%d' % (chr(ord('A') + i % w), 3 + i // w): v
+                 for i, v in enumerate(flows)}
+        return lib.eval_formula('=NPV(%s,A3:%s4)' % (
+            repr(rate), chr(ord('A') + w - 1)), cells)
     if route == 'f-args':
         return lib.eval_formula(
             '=NPV(C1,%s)' % ','.join('A%d' % (i + 1)
@@ -356,6 +368,18 @@ def exec_xnpv(rate, flows, dates, route):
         cells.update(cells_col(dates, 'B'))
         return lib.eval_formula('=XNPV(%r,A1:A%d,B1:B%d)' % (rate, n, n),
                                 cells)
+    if route in ('f-row-col', 'f-col-row'):
+        # the flows in a row and the dates in a column, or the other way
+        # round: n values, n dates
+        n = len(flows)
+        a, b = (flows, dates) if route == 'f-row-col' else (dates, flows)
+        cells = {'Sheet1!%s1' % chr(ord('A') + i): v for i, v in enumerate(a)}
+        cells.update(cells_col(b, 'A', 3))
+        rr = 'A1:%s1' % chr(ord('A') + n - 1)
+        cc = 'A3:A%d' % (n + 2)
+        return lib.eval_formula('=XNPV(%r,%s,%s)' % (
+            (rate, rr, cc) if route == 'f-row-col' else (rate, cc, rr)),
+            cells)
     raise AssertionError(route)
 
 
@@ -366,12 +390,15 @@ def gaps_name(gaps):
 
 def case_xnpv(c, ctx):
     rate, flows, gaps, route = c['rate'], c['flows'], c['gaps'], c['route']
-    dates = dates_of(gaps)
+    dates = dates_of(gaps, c.get('date0'))
     want, scale = fin.xnpv(rate, flows, dates)
     tags = {'fn:XNPV', 'route:' + route} | rate_tags(rate) | flow_tags(flows)
+    if c.get('date0'):
+        tags.add('dates:day-numbers')
     got = exec_xnpv(rate, flows, dates, route)
-    key = 'C20/XNPV/r=%r/v=%s/g=%s/r=%s' % (
-        rate, c.get('name') or fl(flows), gaps_name(gaps), route)
+    key = 'C20/XNPV/r=%r/v=%s/g=%s%s/r=%s' % (
+        rate, c.get('name') or fl(flows), gaps_name(gaps),
+        '@%d' % c['date0'] if c.get('date0') else '', route)
     judge(ctx, key, tags, c, got, want, scale, any(flows))
 
 
@@ -455,7 +482,7 @@ def case_irr(c, ctx):
 def case_xirr(c, ctx):
     flows, gaps, route = scaled(c), c['gaps'], c['route']
     assert fin.one_root_flows(flows)
-    dates = dates_of(gaps)
+    dates = dates_of(gaps, c.get('date0'))
     root = fin.xirr(flows, dates)
     if root is None:
         ctx.skip('root-beyond-rate-range')
@@ -470,16 +497,26 @@ def case_xirr(c, ctx):
         cells = cells_col(flows)
         cells.update(cells_col(dates, 'B'))
         got = lib.eval_formula('=XIRR(A1:A%d,B1:B%d)' % (n, n), cells)
+    elif route == 'f-row-col':
+        n = len(flows)
+        cells = {'Sheet1!%s1' % chr(ord('A') + i): v
+                 for i, v in enumerate(flows)}
+        cells.update(cells_col(dates, 'A', 3))
+        got = lib.eval_formula('=XIRR(A1:%s1,A3:A%d)' % (
+            chr(ord('A') + n - 1), n + 2), cells)
     else:
         raise AssertionError(route)
     tags = ({'fn:XIRR', 'route:' + route} | flow_tags(flows) |
             root_tags(root))
+    if c.get('date0'):
+        tags.add('dates:day-numbers')
     if 1 in gaps:
         tags.add('gap:one-day')
     if c.get('scale'):
         tags.add('scale:%g' % c['scale'])
-    key = 'C20/XIRR/v=%s/g=%s/r=%s' % (c.get('name') or fl(flows),
-                                       gaps_name(gaps), route)
+    key = 'C20/XIRR/v=%s/g=%s%s/r=%s' % (
+        c.get('name') or fl(flows), gaps_name(gaps),
+        '@%d' % c['date0'] if c.get('date0') else '', route)
     judge_root(ctx, key, tags, c, got, root,
                lambda r: fin.xnpv(r, flows, dates)[0],
                sum(abs(v) for v in flows))
@@ -623,8 +660,9 @@ def run_shard(sh, ctx):
                         run_case({'op': 'NPV', 'rate': rate, 'flows': flows,
                                   'route': route}, ctx)
                 elif n == 4 and rate in RATES_FEW:
-                    run_case({'op': 'NPV', 'rate': rate, 'flows': flows,
-                              'route': 'f-range'}, ctx)
+                    for route in ('f-range', 'f-block'):
+                        run_case({'op': 'NPV', 'rate': rate, 'flows': flows,
+                                  'route': route}, ctx)
         ctx.sample({'op': 'NPV', 'flows': fixed, 'rates': list(RATES)})
     elif s == 'long':
         n = sh['n']
@@ -709,10 +747,21 @@ def run_shard(sh, ctx):
                     run_case({'op': 'XNPV', 'rate': rate, 'flows': flows,
                               'gaps': list(gaps), 'route': 'call'}, ctx)
                     if n <= 2:
-                        for route in ('call-col', 'f-range'):
+                        for route in ('call-col', 'f-range', 'f-row-col',
+                                      'f-col-row'):
                             run_case({'op': 'XNPV', 'rate': rate,
                                       'flows': flows, 'gaps': list(gaps),
                                       'route': route}, ctx)
+            if n == 3 and 'second' in sh:
+                # schedules written as day numbers (30, 60, 90: the serials
+                # around the day that 1900 did not have are serials like any
+                # other)
+                for date0, gaps in DAY_NUMBER_SCHEDULES:
+                    for rate in RATES_FEW:
+                        for route in ('call', 'f-range'):
+                            run_case({'op': 'XNPV', 'rate': rate,
+                                      'flows': flows, 'gaps': list(gaps),
+                                      'date0': date0, 'route': route}, ctx)
     elif s == 'xnpvlin':
         for n in (1, 2, 3):
             alpha = F6 if n <= 2 else F3
@@ -750,11 +799,16 @@ def run_shard(sh, ctx):
             flows = fixed + list(rest)
             if not fin.one_root_flows(flows):
                 continue
+            if k == 2:
+                for date0, gaps in DAY_NUMBER_SCHEDULES:
+                    run_case({'op': 'XIRR', 'flows': flows,
+                              'gaps': list(gaps), 'date0': date0,
+                              'route': 'call'}, ctx)
             for gaps in itertools.product(gapset, repeat=k):
                 run_case({'op': 'XIRR', 'flows': flows, 'gaps': list(gaps),
                           'route': 'call'}, ctx)
                 if k <= 2:
-                    for route in ('call-guess', 'f-range'):
+                    for route in ('call-guess', 'f-range', 'f-row-col'):
                         run_case({'op': 'XIRR', 'flows': flows,
                                   'gaps': list(gaps), 'route': route}, ctx)
                     for sc in SCALES:
